@@ -40,6 +40,8 @@ def c_raw(v):
         except ValueError:
             f = None
         return "(RStr %s %s %s)" % (cstr(v), copt(i), copt(f))
+    if isinstance(v, tuple) and len(v) == 0:
+        return "RTuple0"
     if isinstance(v, (list, tuple)):
         return "(RList %s)" % clist([c_raw(x) for x in v])
     if isinstance(v, dict):
